@@ -1,6 +1,6 @@
 SPECIFICATION Spec
 CONSTANTS
-  UserTags = {100, 101, 102}
+  UserTags = {100, 101, 36864}
   Refs = {1, 2, 3, 65534, 65535}
   Lens = {1, 4, 9}
   MaxRef = 65535
